@@ -195,8 +195,11 @@ def judge_injection(ctx, cssutils, parser, base, damaged, kind, tag, where, rng,
     seed = rng.random()
     import random
 
-    t_base = G.render(base, style, random.Random(seed))
-    t_dam = G.render(damaged, style, random.Random(seed))
+    t_base, f1 = G.render2(base, style, random.Random(seed))
+    t_dam, f2 = G.render2(damaged, style, random.Random(seed))
+    if f1 or f2:
+        ctx.count('skipped.rendering-hit-a-known-finding-of-C02')
+        return
     ctx.count('evaluations')
     ctx.count('oracle.injection')
     feats = ['garbage.' + kind + '.' + tag]
